@@ -756,6 +756,17 @@ class C18(Prop):
             scripts.append(call('a', 'skeleton', k))
         for n in range(0, RN + 1):
             scripts.append(call('a', 'ring', n))
+        # targets that exist but hold nothing: freshly made, or emptied by deletions
+        for gk in ('simplex', 'void', 'skeleton', 'ring'):
+            for pre in (['new a'], ['new a', 'add a [ ] sGONE -', 'del a sGONE']):
+                nn = rnd.randint(3, 6) if gk == 'ring' else rnd.randint(0, 3)
+                scripts.append(pre + call('a', gk, nn) + ['snap a'])
+        # calls without attributes, the earlier top simplex annotated in between
+        for k in range(0, 4):
+            lines = call('a', 'simplex', k, id='sT1') + ['setattr a sT1 scolour i1'] + call('a', 'simplex', rnd.randint(0, 3), id='sT2') + \
+                    ['setattr a sT2 sshape i2'] + call('a', 'simplex', rnd.randint(0, 2)) + ['snap a', 'ids']
+            lines += ['new b'] + call('b', 'simplex', k, id='sT3') + ['snap b', 'ids']
+            scripts.append(lines)
         # onto targets made by earlier generator calls and by arbitrary histories
         m = 40 if tier == 'quick' else 900
         for i in range(m):
